@@ -47,9 +47,33 @@ func pickHeight(r *rand.Rand, ch *ns.Chain, max int) int {
 // kinds of scenario
 var kinds = []string{"no-witness", "no-cf", "block-mutatetx", "block-badwitness", "cfheaders-liar", "consistent-liar",
 	"extra-honest", "unexposed-block-liar", "lighter-fork", "cp-liar-long", "cp-only-liar-long",
-	"same-ip-cfheaders-liars", "same-ip-consistent-liars", "banfault-cfheaders-liar", "banfault-block-liar"}
+	"same-ip-cfheaders-liars", "same-ip-consistent-liars", "banfault-cfheaders-liar", "banfault-block-liar",
+	// the misbehaving node is configured by HOST NAME (ConnectPeers
+	// "liar<id>.test:port", resolved by the simulated resolver): same
+	// expectations as for a peer given by IP literal; the ban must be the
+	// record of the resolved IP (IsBanned of the IP form), and the
+	// connection manager's redials must be refused
+	"host-no-witness", "host-no-cf", "host-block-mutatetx", "host-cfheaders-liar"}
 
 func gen(r *rand.Rand, id int, seed, tipUnix int64, kind string) Hist {
+	if strings.HasPrefix(kind, "host-") {
+		h := gen(r, id, seed, tipUnix, kind[5:])
+		h.Kinds[0] = kind
+		for j := range h.Nodes {
+			switch {
+			case h.Expect[j] == 1:
+				h.Nodes[j].Host = fmt.Sprintf("liar%d.test", id)
+			case r.Intn(2) == 0:
+				h.Nodes[j].Host = fmt.Sprintf("honest%d.test", id)
+			}
+		}
+		if h.DeadlineMs > 22000 {
+			// bans of filter-header liars come after ~10 s; the rest of the
+			// run watches the redials
+			h.DeadlineMs = 22000
+		}
+		return h
+	}
 	h := Hist{}
 	h.ID, h.Seed, h.TipUnix = id, seed, tipUnix
 	h.ChainLen = 120 + 40*r.Intn(3)
@@ -171,6 +195,26 @@ func exposed(b *ns.Behaviour, received string) bool {
 	return true
 }
 
+// opposed reports whether a filter-header lie of node j could be proved to
+// the client: some node that tells the truth about filter headers was asked
+// for filter headers or checkpoints too.  (When the liar happens to complete
+// its handshake a few milliseconds before every other peer, the client takes
+// the whole filter-header chain from it alone: nothing contradicts the lie,
+// and no ban can be demanded.  Whether the client then holds valid filter
+// headers is C03/C04's concern.)
+func opposed(h *Hist, j int) bool {
+	for k := range h.Nodes {
+		if k == j || h.Nodes[k].B.Filter != nil || k >= len(h.Res.Received) {
+			continue
+		}
+		rc := " " + h.Res.Received[k]
+		if strings.Contains(rc, " getcfheaders=") || strings.Contains(rc, " getcfcheckpt=") {
+			return true
+		}
+	}
+	return false
+}
+
 func bools(b []bool) string {
 	it := make([]string, len(b))
 	for i, x := range b {
@@ -261,6 +305,10 @@ func main() {
 				h.Expect[j] = 3
 				h.Kinds = append(h.Kinds, "liar-never-asked")
 				rep.Histogram["liar-never-asked"]++
+			} else if j < len(h.Expect) && (h.Expect[j] == 1 || h.Expect[j] == 4) && h.Nodes[j].B.Filter != nil && !opposed(h, j) {
+				h.Expect[j] = 3
+				h.Kinds = append(h.Kinds, "liar-unopposed")
+				rep.Histogram["liar-unopposed"]++
 			}
 		}
 		if !first {
